@@ -13,7 +13,10 @@ from concurrent.futures import ThreadPoolExecutor
 
 VERIF = os.path.dirname(os.path.dirname(os.path.abspath(__file__)))
 REPO = os.environ.get("VERIF_REPO", "/repo")
-BUILD = os.path.join(VERIF, "build")
+BUILD_SHARED = os.path.join(VERIF, "build")
+# a non-default repo (mutation testing) gets its own build/run area so that it never
+# disturbs checks of /repo running at the same time
+BUILD = BUILD_SHARED if REPO == "/repo" else os.path.join(VERIF, "build", "alt-" + hashlib.sha256(REPO.encode()).hexdigest()[:10])
 
 SAN = ["-fsanitize=address,undefined", "-fno-sanitize=pointer-overflow,nonnull-attribute",
        "-fno-sanitize-recover=undefined", "-fno-omit-frame-pointer"]
@@ -197,7 +200,7 @@ def compile_cxx(src, extra_flags=(), fuzz=False):
     data = open(src, "rb").read()
     key = hashlib.sha256(data + " ".join(fl).encode() + _dir_hash(os.path.dirname(src)).encode() +
                          _dir_hash(os.path.join(VERIF, "engine")).encode()).hexdigest()[:24]
-    objdir = os.path.join(BUILD, "obj", "core")
+    objdir = os.path.join(BUILD_SHARED, "obj", "core")
     obj = os.path.join(objdir, os.path.basename(os.path.dirname(src)) + "-" + os.path.basename(src).rsplit(".", 1)[0] + "-" + key + ".o")
     if not os.path.exists(obj):
         os.makedirs(objdir, exist_ok=True)
